@@ -202,9 +202,9 @@ Section Gated.
                      match ek e with KMirror | KUnparsed => False | _ => True end ->
                      r <> ROK /\ unchanged s s').
           { intros Ht Hy Hk.
-            pose proof (touches_active prim FRead true true SM (fun _ => eq_refl) CW e Ha Ht) as Hf.
+            pose proof (touches_active rows prim FRead true true SM (fun _ => eq_refl) HclosedM CW e Ha Ht) as Hf.
             assert (Hf' : match callee e with Some (i, a) => prim i = false /\ SM i (tgt a CW) = false | None => True end).
-            { destruct (ek e); try exact Hf; try destruct Hk. discriminate Hf. }
+            { destruct (ek e); try exact Hf; try destruct Hk. }
             destruct (do_callee rows prim call CW e o1 s) as [[r2 s2] o2] eqn:Eq.
             pose proof (same_unchanged _ _ (do_callee_same _ _ _ _ _ _ _ _ _ _ _ _ Hpure Hf' Eq)) as Hu.
             destruct r2.
@@ -335,12 +335,13 @@ Section Invalid.
       - simpl in Hv.
         destruct (touches false true prim SA CW e) eqn:Et.
         + (* an effect: no argument check from here on, so RINV is impossible *)
-          rewrite orb_true_r in Hv.
+          simpl in Hv.
           destruct (is_argcheck e) eqn:Ea; simpl in Hv; [discriminate|].
           exfalso. eapply (exec_no_inv CW (e :: l)); [|exact Hx|reflexivity].
           intros e0 [<-|Hi]; [exact Ea|eapply vbe_seen_noargs; eauto].
-        + rewrite orb_false_r in Hv.
-          assert (Hv' : vbe_scan prim SA false l = true) by (destruct (is_argcheck e); simpl in Hv; [discriminate|exact Hv]).
+        + simpl in Hv.
+          assert (Hv' : vbe_scan prim SA false l = true).
+          { destruct (is_argcheck e); simpl in Hv; [rewrite ?andb_false_r in Hv; simpl in Hv|]; exact Hv. }
           simpl in Hx.
           destruct (active mode CW e) eqn:Ha; simpl in Hx; [|eapply IH; eauto].
           assert (Hf : match ek e with
@@ -427,8 +428,8 @@ Lemma gated_consistent_sound : forall prim SM t G,
               exists r, rows_of t g = Some r /\ gate_scan prim SM (fun i => PositiveSet.mem i G) (revs r) = true.
 Proof.
   intros prim SM t G H g Hg. unfold gated_consistent_b in H. apply andb_true_iff in H. destruct H as [H1 H2].
-  apply PositiveSet.for_all_spec in H2; [|intros x y ->; reflexivity].
-  assert (Hin : PositiveSet.In g G) by (apply PositiveSet.mem_spec; exact Hg).
+  apply PositiveSet.for_all_2 in H2; [|intros x y ->; reflexivity].
+  assert (Hin : PositiveSet.In g G) by (apply PositiveSet.mem_2; exact Hg).
   specialize (H2 g Hin). simpl in H2.
   destruct (rows_of t g) as [r|] eqn:Er.
   - exists r. split; [reflexivity|]. destruct (rows_of_in _ _ _ Er) as [Hi Hid].
@@ -512,7 +513,7 @@ Proof.
   destruct hi; try discriminate.
   assert (Hsub : sub = -1) by (apply Z.eqb_eq; assumption). subst sub.
   unfold getter_accepts in Hacc. apply negb_true_iff in Hacc. apply orb_false_iff in Hacc. destruct Hacc as [Hh Hl].
-  simpl in Hh. apply Z.gtb_ltb in Hh. apply Z.ltb_ge in Hh.
+  simpl in Hh. rewrite Z.gtb_ltb in Hh. apply Z.ltb_ge in Hh.
   destruct lo; try discriminate.
   - destruct lo_val as [|[| |]|]; try discriminate. simpl in Hl. apply Z.ltb_ge in Hl.
     repeat split; try lia; assumption.
